@@ -214,6 +214,11 @@ KP = ["publish_safety", "retire_safety", "max_signature_validity", "min_signatur
 for i_, text in enumerate(["P1.5D", "P1,5D", "P-1D", "P+1D", "P 1D", "P1D ", " P1D", "PxD", "Px1D", "P1DX", "P1Y", "P1D2X3H", "PT1.5H", "P1D;", "P1e3D", "P0x10D", "p1d", "P1d", "1D", "D1",
                            "P1D\n", "P10D\nT5H", "P10D\nnot a duration at all", "P\t1D", "PT1H:30M", "P1D+PT1H", "P1_000D", "P\u00b9D", "P1D#comment", "PD", "PTH", "P1TD"]):
     BAD.append((("ksk_policy", KP[i_ % len(KP)]), text))
+# documented forms are forms of the whole value: a line break after an otherwise well-formed value is not part of any of them
+for path, v in [(("keys", "ksk_current", "label"), "Kjqmt7v\n"), (("keys", "ksk_current", "label"), "\nKjqmt7v"), (("keys", "ksk_current", "ds_sha256"), "AB" * 32 + "\n"),
+                (("request_policy", "acceptable_domains"), [".\n"]), (("request_policy", "acceptable_domains"), ["example.org.\n"]), (("ksk_policy", "signers_name"), ".\n"),
+                (("schemas", "normal", 1, "sign"), "ksk_current\n"), (("keys", "ksk_current", "algorithm"), "RSASHA256\n")]:
+    BAD.append((path, v))
 for path, v in BAD:
     c = copy.deepcopy(BASE)
     setp(c, path, v)
